@@ -58,7 +58,7 @@ def spec (c : Case) (o : Obs) : Bool :=
       (o.hashCopy == .ok && o.hashEqFresh && ((c.hashedBefore && c.mutate.isSome) || o.hashEqOrig))) &&
     (op == .copy || o.cacheAfter != .carried)
 
-/-! ### Known deviations (DESIGN §6 and three found while building this check) -/
+/-! ### Known deviations (DESIGN §6; K4, K10a, K10c are repaired in attrs and no longer listed) -/
 
 /-- K1: the resolved `__hash__` caches but was generated for a base: the class's own `__init__` never
     creates the cache attribute -/
@@ -71,26 +71,24 @@ def k1 (s : Summary) : Bool :=
     into `__dict__`, `__hash__` reads the empty slot -/
 def k2 (s : Summary) : Bool := s.lastCache && s.frozen && !s.lastSlots && decide (CACHE ∈ s.slotNames)
 
-/-- K4: the class resolves a `__getstate__`/`__setstate__` pair attrs generated for a *base* that lacks
-    some of the class's fields -/
-def k4 (s : Summary) : Bool :=
+/-- the class resolves a `__getstate__`/`__setstate__` pair attrs generated for a *base* (only possible when
+    the class itself passed `getstate_setstate=False`, see `C10_inherited_pair_only_by_opt_out`) and that pair
+    lacks some of the class's fields -/
+def inhLosesFields (s : Summary) : Bool :=
   match s.gs with
   | .gen names _ false => s.names.any (fun n => !names.contains n)
   | _ => false
 
-/-- K10c: same resolution, and the base's `__setstate__` does not initialise the hash cache this class's
+/-- same resolution, and the base's `__setstate__` does not initialise the hash cache this class's
     `__hash__` needs -/
-def k10c (s : Summary) : Bool :=
+def inhLosesCache (s : Summary) : Bool :=
   match s.gs with
   | .gen _ false false => s.cached
   | _ => false
 
-/-- K10a: a generated `__getstate__` over no fields returns `{}`; protocols 0/1 drop a falsy state, so
-    `__setstate__` (and its cache reset) never runs on a caching class -/
-def k10a (s : Summary) (op : Op) : Bool :=
-  match s.gs with
-  | .gen [] _ _ => isLow op && s.cached
-  | _ => false
+/-- K11, second form: the class opted out of its own state methods and the pair it inherits from an attrs
+    base does not cover it -/
+def optOutLoses (s : Summary) : Bool := s.lastOptOut && (inhLosesFields s || inhLosesCache s)
 
 /-- the default reduction fails: protocols 0/1 refuse `__slots__` without `__getstate__`; a frozen class
     cannot take slot values back through `setattr` -/
@@ -114,12 +112,9 @@ def known (c : Case) : List String :=
   if isLegacy c.op then [] else
   (if k1 s then ["K1"] else []) ++
   (if k2 s then ["K2"] else []) ++
-  (if k4 s then ["K4"] else []) ++
   (if k5 s c then ["K5"] else []) ++
-  (if dfltFails s c && optedOut c then ["K11"] else []) ++
-  (if k10a s c.op then ["K10a"] else []) ++
-  (if dfltFails s c && !optedOut c then ["K10b"] else []) ++
-  (if k10c s then ["K10c"] else [])
+  (if (dfltFails s c && optedOut c) || optOutLoses s then ["K11"] else []) ++
+  (if dfltFails s c && !optedOut c then ["K10b"] else [])
 
 def check : Check Case Obs := { model := model, spec := spec, wf := wf, known := known }
 
